@@ -60,6 +60,32 @@ def corpus_cases(pid):
     return res
 
 
+def engine_regressions(ctx, exe, pid):
+    """Engine-only regression scenarios (corpus/<pid>/engine-only/*.json: {"lines", "expect"}): script
+    constructs the machine does not model yet (e.g. `group waittill`).  They run on the real engine only;
+    the recorded answers and the absence of a crash are compared.  They are tests, not part of any
+    theorem's tie, and are labelled as such in the evidence."""
+    n = bad = 0
+    for p in sorted(glob.glob(os.path.join(VERIF, "corpus", pid, "engine-only", "*.json"))):
+        obj = json.load(open(p))
+        impl, crash, info = common.run_lines(exe, [], obj["lines"], timeout=60)
+        n += 1
+        if crash is None and impl == obj["expect"]:
+            continue
+        bad += 1
+        sig = crash if crash else "engine-only:" + os.path.basename(p)
+        replay = common.save_replay(ctx, {
+            "property": pid, "kind": "engine-only regression", "case": os.path.basename(p), "lines": obj["lines"],
+            "impl_out": impl, "expected": obj["expect"], "crash": crash, "crash_info": info if crash else "",
+            "signature": sig, "why": obj.get("note", ""),
+            "how_to_replay": "python3 tools/check.py %s --replay <this file>" % pid})
+        ctx.violations.append({"signature": sig, "replay": replay, "why": obj.get("note", ""), "found_input": True})
+    ctx.oblige("engine-only regression scenarios (%d; tests, not tied to the model)" % n, bad == 0,
+               "%d failing" % bad, reported=True)
+    ctx.stats["engine_only_scenarios"] = n
+    return bad
+
+
 def build_engine(ctx):
     return common.build_full(ctx, "h_engine", ["engine.cpp"])
 
@@ -73,6 +99,7 @@ def run(ctx, prop, props_module, props_file, case_gens, trusted, assume, rule, e
     d = Diff(ctx, prop, exe, AREA)
     d.line_monitor = line_monitor
     bad = d.run_batch(corpus_cases(ctx.prop_id))
+    engine_regressions(ctx, exe, ctx.prop_id)
     quick = ctx.tier == "quick"
     for name, nq, nt, fn in case_gens:
         rng = ctx.rng(name)
